@@ -5,7 +5,7 @@ from .models import Tree, m5, norm, norm_suffix, basename, render_plain
 
 NAME_POOL = ["10-a", "9-b", "100-c", "A", "a", "B", "_x", "~y", "0", "00", ".h", "sp ace", "\xe9t\xe9", "a.b", "-dash", "%s%n", "50%d"]
 KEYS = ["x", "y", "z", "w", "X", "xy"]        # incl. a pair that differs only in case and a key that is a prefix of another
-SECS = ["A", "B", "Sec 1", "a", "AB"]
+SECS = ["A", "B", "Sec 1", "a", "AB", "_oNne_"]       # the last one has the djb2 hash of the reserved placeholder text
 MAIN_STATES = ["absent", "regular", "empty", "devnull"]
 
 
@@ -98,16 +98,18 @@ def postfixes_of(read):
 
 
 def rel(read, p):
-    """spelling of a sandbox path handed to the library: relative to the working directory $ROOT when the
-    world asks for relative names"""
-    if p is not None and read.get("rel") and p.startswith("$ROOT/"):
-        return read.get("rel_dot", "") + p[len("$ROOT/"):]
-    if p is not None and read.get("dotdot"):
+    """spelling of a sandbox path handed to the library: through the directory link of a dotdot world, and
+    relative to the working directory $ROOT when the world asks for relative names"""
+    if p is None:
+        return p
+    if read.get("dotdot"):
         # the caller reaches the tree through a symbolic link to a directory and "..": $ROOT/cur -> $ROOT/rel/v2
         if p == "$ROOT/rel":
-            return "$ROOT/cur/.."
-        if p.startswith("$ROOT/rel/"):
-            return "$ROOT/cur/../" + p[len("$ROOT/rel/"):]
+            p = "$ROOT/cur/.."
+        elif p.startswith("$ROOT/rel/"):
+            p = "$ROOT/cur/../" + p[len("$ROOT/rel/"):]
+    if read.get("rel") and p.startswith("$ROOT/"):
+        return read.get("rel_dot", "") + p[len("$ROOT/"):]
     return p
 
 
@@ -125,6 +127,8 @@ def apply_dotdot(world):
     w = json.loads(json.dumps(world).replace("$ROOT", "$ROOT/rel"))
     w["read"].setdefault("root", "$ROOT/rel")
     w["read"]["dotdot"] = True
+    if w["read"].get("rel"):
+        w["cfg"]["cwd"] = "$ROOT"        # relative names start at the sandbox root: cur/../<dir>
     w["nodes"] += decoys + [{"p": "$ROOT/rel/v2", "t": "d"}, {"p": "$ROOT/cur", "t": "l", "to": "$ROOT/rel/v2"}]
     return w
 
@@ -202,7 +206,7 @@ def option_string(read):
     items = []
     if o.get("root_prefix"):
         rp = read.get("root", "$ROOT")
-        items.append("ROOT_PREFIX=" + ((rp[len("$ROOT/"):] if rp != "$ROOT" else ".") if read.get("rel") else rel(read, rp)))
+        items.append("ROOT_PREFIX=" + ("." if (read.get("rel") and rp == "$ROOT") else rel(read, rp)))
     if o.get("parsing_dirs"):
         items.append("PARSING_DIRS=" + ":".join(dirarg(read, d) for d in o["parsing_dirs"]))
     if o.get("config_dirs"):
@@ -305,7 +309,8 @@ def gen_layered_world(rng, i, two_layer=None, want_files=True, small=False, allo
             # parsing options that must not change anything for files that define every key once
             read["opts"]["extra"] = [rng.pick(["JOIN_SAME_ENTRIES=1", "JOIN_SAME_ENTRIES=1", "PYTHON_STYLE=1"])]
         if rng.chance(0.25):
-            read["opts"]["config_dirs"] = rng.pick([[".d"], [".conf.d", ".d"], ["/conf.d"], [".d", "/conf.d"], [".dropins"]])
+            # an EMPTY list element names the directory <layer>/<name> itself (like the spelling "/")
+            read["opts"]["config_dirs"] = rng.pick([[".d"], [".conf.d", ".d"], ["/conf.d"], [".d", "/conf.d"], [".dropins"], [".d", ""], ["", ".conf.d"], [".d", "", "/conf.d"]])
         if rng.chance(0.25) and (read["opts"].get("parsing_dirs") or read["opts"].get("root_prefix")):
             read["opts"]["root_prefix"] = True
     if read["ep"] == "readConfig" and rng.chance(0.4):
@@ -326,7 +331,7 @@ def gen_layered_world(rng, i, two_layer=None, want_files=True, small=False, allo
         # without a suffix "<layer>/<name>" is the main file; a postfix like "/conf.d" would make it a directory
         for holder, key in ((read["opts"], "config_dirs"), (read, "global_dirs")):
             if holder.get(key):
-                holder[key] = [d for d in holder[key] if not d.startswith("/")] or [".d"]
+                holder[key] = [d for d in holder[key] if not d.startswith("/") and d != ""] or [".d"]
 
     if (read["ep"] == "readConfig" and read["opts"].get("root_prefix") and not read["opts"].get("parsing_dirs") and read.get("project") is not None
             and read.get("name") and (read.get("usr_subdir") or "").startswith("/") and rng.chance(0.12)):
@@ -440,6 +445,8 @@ def gen_layered_world(rng, i, two_layer=None, want_files=True, small=False, allo
         # relative names: the run's working directory is $ROOT
         read["rel"] = True
         cfg["cwd"] = "$ROOT"
+        if allow_dotdot and rng.chance(0.15):
+            return apply_dotdot({"kind": "layered", "read": read, "nodes": nodes, "cfg": cfg})
     elif allow_dotdot and rng.chance(0.06) and all(l.startswith("$ROOT") for l in layers):
         return apply_dotdot({"kind": "layered", "read": read, "nodes": nodes, "cfg": cfg})
     elif rng.chance(0.3):
